@@ -512,6 +512,32 @@ def part_cdf(sh, np, ode, rec, params):
                                    getattr(su, q), case, t)
                 continue
             sh.check_equal("cdf-path-taken", bool(ts.cdforces), True, case, t)
+            if ci % 4 == 1 and C["nt"] >= 8 and via == "class":
+                # the step-at-a-time form of the same recurrence: march to the end, go back
+                # several steps and re-solve them with the SAME forces -- the history must
+                # come out as tsolve gave it (a damping-force term kept from the last step
+                # solved would belong to another step)
+                tg_ = ode.SolveCDF(C["m"], C["b"], C["k"], C["h"], **kw)
+                F_ = C["F"]
+                try:
+                    gen, dg, vg = tg_.generator(C["nt"], F_[:, 0].copy(), d0=C["d0"],
+                                                v0=C["v0"], static_ic=C["static_ic"])
+                except NotImplementedError:
+                    gen = None      # documented: no generator for interspersed partitions
+                    sh.count("cell:cdf:generator-not-implemented-for-layout")
+                if gen is not None:
+                    for j_ in range(1, C["nt"]):
+                        gen.send((j_, F_[:, j_].copy()))
+                    back = int(r.integers(2, min(6, C["nt"] - 2) + 1))
+                    for j_ in range(C["nt"] - back, C["nt"]):
+                        gen.send((j_, F_[:, j_].copy()))
+                    solg = tg_.finalize()
+                    sh.count("mon:cdf-generator-goes-back")
+                    for q in "dv":
+                        refq = getattr(sol, q)
+                        tolq = 1e-12 * np.abs(refq).max(axis=1, keepdims=True) + 1e-300
+                        sh.check_close("cdf-generator-goes-back-" + q, getattr(solg, q),
+                                       refq, np.broadcast_to(tolq, refq.shape), case, t)
             for cell in (f"order{C['order']}", f"m:{t['mform']}", f"rb:{t['rb']}",
                          f"rf:{t['rf']}", f"ic:{t['ic']}", f"via:{via}",
                          f"sym:{t['symmetric']}"):
